@@ -122,6 +122,12 @@ def run(pid, tier, seed, replay=None):
                 import mtcheck
                 scripts += mtcheck.mt_fd_scripts(pid, seed, 6 if tier == "quick" else 60)
             if pid == "C07":
+                # a quit request made while the loop is not running is stale: the next iv_main runs normally
+                for m in coregen.METHODS:
+                    scripts.append("\n".join(["B C07q.%s method=%s seed=1 maxwait=14" % (m, m), "O tm 1", "O tk 1", "S tm_reg 1 1 0 1000",
+                                              "S tk_reg 1", "S quit", "R tm 1 0 1 validate", "X"]) + "\n")
+                    scripts.append("\n".join(["B C07q2.%s method=%s seed=1 maxwait=14 cycles=2" % (m, m), "O tm 1", "O tm 2",
+                                              "S tm_reg 1 1 0 1000", "S tm_reg 2 1 0 2000", "R tm 1 0 1 quit", "P quit", "X"]) + "\n")
                 # a failed event registration in a threaded program, then a successful one that another
                 # thread posts to ("registration calls that report failure leave the loop exactly as it was")
                 import random as _r
